@@ -40,6 +40,10 @@ def gen_dir(ident):
     return os.path.join(TARGET_DIR, "gen_%s%s" % (ident, repo_tag()))
 
 
+def text_hash(text):
+    return hashlib.md5(text.encode()).hexdigest()[:10]
+
+
 def mod_name(i):
     return "d%04d" % i
 
@@ -111,7 +115,8 @@ def _message_decls(msg):
 
 
 def cargo_build(crate_dir, timeout_s, bin_name):
-    """Runs one `cargo build`. Returns dict(ok, seconds, per_decl_errors, other_errors, exe, raw_tail)."""
+    """Runs one `cargo build`. `bin_name` is the common prefix of the crate's binaries.
+    Returns dict(ok, seconds, per_decl, other, exe (sorted list of executables), stderr_tail)."""
     t0 = time.time()
     cmd = ["timeout", str(timeout_s), "cargo", "build", "--offline", "--message-format=json",
            "--manifest-path", os.path.join(crate_dir, "Cargo.toml")]
@@ -120,7 +125,7 @@ def cargo_build(crate_dir, timeout_s, bin_name):
     dt = time.time() - t0
     per_decl = {}
     other = []
-    exe = None
+    exes = {}
     for line in p.stdout.splitlines():
         if not line.startswith("{"):
             continue
@@ -129,8 +134,8 @@ def cargo_build(crate_dir, timeout_s, bin_name):
         except ValueError:
             continue
         if j.get("reason") == "compiler-artifact":
-            if j.get("executable") and j.get("target", {}).get("name") == bin_name:
-                exe = j["executable"]
+            if j.get("executable") and j.get("target", {}).get("name", "").startswith(bin_name):
+                exes[j["target"]["name"]] = j["executable"]
         if j.get("reason") != "compiler-message":
             continue
         msg = j.get("message", {})
@@ -154,10 +159,7 @@ def cargo_build(crate_dir, timeout_s, bin_name):
                 loc = "%s:%s " % (s.get("file_name"), s.get("line_start"))
             other.append(loc + short)
     ok = p.returncode == 0
-    if ok and exe is None:
-        cand = os.path.join(TARGET_DIR, "debug", bin_name)
-        if os.path.exists(cand):
-            exe = cand
+    exe = [exes[k] for k in sorted(exes)]
     tail = (p.stderr or "")[-3000:]
     if p.returncode == 124:
         other.append("cargo build timed out after %ss" % timeout_s)
@@ -196,25 +198,54 @@ def build_with_bisect(write_crate, n_decls, bin_name, timeout_s, max_rounds=3):
                                        % (max_rounds, sorted(new)[:10])}
 
 
-def run_program(exe, out_file, timeout_s, args=()):
+def run_program(exes, out_file, timeout_s, args=()):
+    """Runs every binary of the generated crate (each writes its own JSON-lines file); concatenates the records.
+    `done` is True only if every binary reached its end."""
     t0 = time.time()
-    if os.path.exists(out_file):
-        os.remove(out_file)
-    p = subprocess.run(["timeout", str(timeout_s), exe, out_file] + list(args),
-                       stdout=subprocess.PIPE, stderr=subprocess.PIPE, text=True, errors="replace")
     recs = []
-    if os.path.exists(out_file):
-        with open(out_file, "r", encoding="utf-8", errors="replace") as f:
-            for line in f:
-                line = line.strip()
-                if not line:
-                    continue
-                try:
-                    recs.append(json.loads(line))
-                except ValueError:
-                    recs.append({"k": "garbled", "raw": line[:300]})
-    return {"rc": p.returncode, "seconds": time.time() - t0, "records": recs,
-            "stderr_tail": (p.stderr or "")[-2000:]}
+    rc = 0
+    done = bool(exes)
+    stderr_tail = ""
+    procs = []
+    for k, exe in enumerate(exes):
+        of = "%s.%02d" % (out_file, k)
+        if os.path.exists(of):
+            os.remove(of)
+        procs.append((of, subprocess.Popen(["timeout", str(timeout_s), exe, of] + list(args),
+                                           stdout=subprocess.DEVNULL, stderr=subprocess.PIPE, text=True, errors="replace")))
+    for of, p in procs:
+        _, err = p.communicate()
+        if p.returncode != 0:
+            rc = p.returncode
+            stderr_tail += (err or "")[-1000:]
+        this_done = False
+        if os.path.exists(of):
+            with open(of, "r", encoding="utf-8", errors="replace") as f:
+                for line in f:
+                    line = line.strip()
+                    if not line:
+                        continue
+                    try:
+                        j = json.loads(line)
+                    except ValueError:
+                        j = {"k": "garbled", "raw": line[:300]}
+                    if j.get("k") == "done":
+                        this_done = True
+                        continue
+                    recs.append(j)
+        done = done and this_done
+    if done:
+        recs.append({"k": "done"})
+    return {"rc": rc, "seconds": time.time() - t0, "records": recs, "stderr_tail": stderr_tail[-2000:]}
+
+
+def chunks(indices, size):
+    indices = list(indices)
+    return [indices[i:i + size] for i in range(0, len(indices), size)] or [[]]
+
+
+def bin_sections(prefix, nbins):
+    return "".join("[[bin]]\nname = \"%s_b%02d\"\npath = \"src/b%02d.rs\"\n\n" % (prefix, k, k) for k in range(nbins))
 
 
 def copy_lock(crate_dir):
